@@ -410,6 +410,20 @@ pub fn ready_unless_parked<S: tower::Service<Req>>(s: &mut S) {
     let mut cx = std::task::Context::from_waker(&w);
     let _ = s.poll_ready(&mut cx);
 }
+/// poll_ready until it answers Ready(Ok) (at most 50 times): a caller that meets a readiness error of a service that
+/// recovers polls again; never calls a service that has not answered ready
+pub fn ready_until_ok<S: tower::Service<Req>>(s: &mut S) {
+    if SKIP_READY.with(|c| c.get()) {
+        return;
+    }
+    let w = futures::task::noop_waker();
+    let mut cx = std::task::Context::from_waker(&w);
+    for _ in 0..50 {
+        if let std::task::Poll::Ready(Ok(())) = s.poll_ready(&mut cx) {
+            return;
+        }
+    }
+}
 /// mode 0 = a fresh clone per request, 1 = one long-lived handle for every request,
 /// 2 = two long-lived clones used alternately, 3 = a fresh clone per request, except that every
 /// third request goes through the handle that has been ready (and parked) the longest - Tower
@@ -428,7 +442,7 @@ impl<S: Clone + tower::Service<Req>> Handles<S> {
         if mode == 3 {
             for _ in 0..3 {
                 let mut p = base.clone();
-                ready_unless_parked(&mut p);
+                ready_until_ok(&mut p);
                 parked.push_back(p);
             }
         }
@@ -452,7 +466,7 @@ impl<S: Clone + tower::Service<Req>> Handles<S> {
                 let r = f(&mut p);
                 SKIP_READY.with(|c| c.set(false));
                 let mut next = self.base.clone();
-                ready_unless_parked(&mut next);
+                ready_until_ok(&mut next);
                 self.parked.push_back(next);
                 r
             }
